@@ -79,6 +79,10 @@ def _drive(args):
         if len(parts) > 2:
             variants.append(parts[1:] + parts[:1])
         mk = bytes(r.randrange(256) for _ in range((16, 24)[(tid // 2) % 2]))
+        if tid % 4 == 1:
+            # refused input first: whatever happens to it must not leak into the calls that follow
+            call(lambda: keymod.get_zone_master_key(parts[0].hex(), 'not hexadecimal at all' + 'z' * 10))
+            call(lambda: pinblock.calculate_pvv('12x4', key.hex(), idx, pan))
         for ps in variants:
             kind, out_ = call(lambda: keymod.get_zone_master_key(*[p.hex() for p in ps]))
             ev.append(pev('zmk', parts=ps, kind=kind, out=nib(out_[0]) if kind == 'ok' else ()))
